@@ -1193,8 +1193,9 @@ static Value builtin_array_pop(Value *args) {
     DynArray *arr = args[0].as.dyn_array_val;
     
     if (dyn_array_length(arr) == 0) {
-        fprintf(stderr, "Error: array_pop() on empty array\n");
-        return create_void();
+        /* like an index out of bounds (builtin_at, builtin_array_remove_at): stop, never yield a value */
+        fprintf(stderr, "Runtime Error: array_pop() on empty array\n");
+        exit(1);
     }
     
     /* Pop element based on type */
